@@ -394,9 +394,32 @@ def main(pid, tier, seed):
             tid += 1
             traces.append({'tid': tid, 'kind': 'tables', 'm': model, 'n': ot.ngram, 'maxlen': ot.max_length,
                            'pws': [omen.ids_of(p, ids) for p in pws], 'alpha': [ids[a] for a in ot.alphabet],
-                           'ipc': ipc, 'epc': epc, 'cpc': cpc, 'lnc': [c for _, c in ot.ln_lookup], 'asz': asz})
+                           'ipc': ipc, 'epc': epc, 'cpc': cpc, 'lnc': [c for _, c in ot.ln_lookup], 'asz': asz,
+                           'cptot': [[omen.ids_of(k, ids), data['cp_count']] for k, data in ot.grammar.items()]})
             meta[tid] = {'kind': 'trainer n-gram tables', 'list': name, 'ngram': ngram, 'alphabet_size': asz, 'passwords': len(pws)}
 
+    smoothing = None
+    if pid == 'C11':
+        # ---- the smoothing formula (Smoothing.tla): model-checked (one admissible level everywhere, monotone in the count), and the
+        # ---- real _calc_level on every (count, total, adjust) of that space (spec -> code, I-layer: drift only)
+        from lib_trainer.omen.smoothing import _calc_level
+        mt = 120 if tier == 'quick' else 400
+        cfgp = os.path.join(core.scratch('smcfg'), 'MC_Smoothing.cfg')
+        with open(os.path.join(core.SPEC, 'MC_Smoothing.cfg')) as f:
+            txt = f.read().replace('MaxTotal = 400', 'MaxTotal = %d' % mt)
+        with open(cfgp, 'w') as f:
+            f.write(txt)
+        r = core.tlc_must_pass(os.path.join(core.SPEC, 'MC_Smoothing.tla'), cfgp, 'Smoothing', timeout=1800)
+        n_rows = 0
+        for t_ in range(1, mt + 1):
+            rows = [[c, t_, a, _calc_level(c, t_, a)] for a in (1, 2, 250) for c in range(0, t_ + 1)]
+            n_rows += len(rows)
+            tid += 1
+            traces.append({'tid': tid, 'kind': 'smooth', 'm': {'n': 2, 'ln': [], 'ip': [], 'cp': []}, 'rows': rows})
+            meta[tid] = {'kind': '_calc_level on the model-checked space', 'list': 'total=%d' % t_}
+        smoothing = {'model_checking': {'cfg': 'MC_Smoothing.cfg (MaxTotal = %d)' % mt, 'states': r.distinct, 'wall_s': round(r.wall, 1),
+                                        'invariants': ['Determined', 'Monotone', 'ZeroIsMax', 'CertainIsZero']},
+                     'real_calc_level_calls_validated': n_rows}
     verdicts, st = core.validate_traces('TrOmen.tla', traces, chunk=250, timeout=900)
     idrift = []
     for t in traces:
@@ -443,7 +466,7 @@ def main(pid, tier, seed):
     nontriv = [t for t in traces if (t['kind'] == 'level' and len(t['ev']) > 1) or t['kind'] in ('agree', 'keyspace')]
     distinct = len({json.dumps({k: v for k, v in t.items() if k != 'tid'}, sort_keys=True) for t in nontriv})
     s = nontriv[min(5, len(nontriv) - 1)] if nontriv else traces[0]
-    cov = {'trainings_fed_in_prefixcount_form': N_PREFIXED[0], 'levels_too_large_to_drain_whose_keyspace_the_specification_still_counted': n_counted_only[0], 'levels_whose_training_passwords_were_counted_in_the_generator_output': n_counted_by_generator[0], 'states': mc['states'], 'transitions': mc['transitions'],
+    cov = {'smoothing': smoothing, 'trainings_fed_in_prefixcount_form': N_PREFIXED[0], 'levels_too_large_to_drain_whose_keyspace_the_specification_still_counted': n_counted_only[0], 'levels_whose_training_passwords_were_counted_in_the_generator_output': n_counted_by_generator[0], 'states': mc['states'], 'transitions': mc['transitions'],
            'traces_validated_against_impl': len(traces),
            'samples': [{'meta': {k: v for k, v in meta[s['tid']].items() if k != 'model'}, 'trace': core.short(s, 700)}],
            'model_checking': mc, 'evaluations': len(traces), 'distinct_nontrivial': distinct,
